@@ -2,9 +2,22 @@
   C16 — Numeric-to-string conversion keeps missing values missing and integers integral.
 
   Model: `SSJ.Converter.seriesToStr` / `dataframeColumnToStr` (lean/SSJ/Model/Converter.lean), the decision
-  logic of utils/converter.py on a column = dtype tag + cells.  `reprF` stands for CPython's `repr(float)`
-  (opaque parameter); the pandas dtype mechanics are modelled, not verified (DESIGN §6 C16) — the tie to the
+  logic of utils/converter.py on a column = dtype tag + cells.  `reprF` stands for CPython's `repr(float)` on finite
+  doubles (opaque parameter); the pandas dtype mechanics are modelled, not verified (DESIGN §6 C16) — the tie to the
   real code is the `converter` correspondence suite and the independent converter oracle.
+
+  Cells of a float column: `.flt q` (a finite double), `.missing` (NaN), and the two infinities, which reach the model
+  as `.other posInfTag` / `.other negInfTag`.  An infinity is not integral (`float('inf').is_integer()` is False), so
+  a float column holding one is converted with `str(v)`: `[1.0, inf, nan]` becomes `['1.0', 'inf', NaN]`.
+
+  KNOWN FINDING K1 (recorded in /verif/known_findings.json, not repaired).  Under pandas ≥ 3 the real
+  `series_to_str(<int/float Series with at least one present value>, inplace=True)` raises TypeError — `Series.update`
+  cannot change the dtype of a numeric Series to string and a standalone Series cannot be re-typed in place — and
+  leaves the Series unchanged.  The model follows the DOCUMENTED behaviour ("A Boolean value when inplace is set to
+  True"): it returns `True` and the object holds the converted column.  `series_modes` and `series_error_iff` below
+  therefore describe the documented behaviour, not the observed one, in exactly that case (numeric dtype, some present
+  value, `inplace = true`); everywhere else (`inplace = false`, string / object columns, empty and all-NaN columns,
+  and `dataframe_column_to_str` in all modes, which is repaired) model and real code agree.
 -/
 import SSJ.Proofs.Converter
 
@@ -12,7 +25,9 @@ namespace SSJ.Props.C16
 open SSJ SSJ.Converter
 
 /-- Every present numeric value becomes its string form, every missing value stays missing (never the string
-    "nan"), string columns are returned unchanged: for `series_to_str` -/
+    "nan"), string columns are returned unchanged: for `series_to_str`.  In a float column the finite values are
+    printed through `int` when all present values are integral and with `repr` otherwise; `inf` / `-inf` become the
+    strings "inf" / "-inf" -/
 theorem series_values (reprF : Rat → String) (c : Column) (inplace : Bool) (res : Column)
     (h : (seriesToStr reprF c inplace).col? = some res) :
     res.values.length = c.values.length ∧
@@ -23,7 +38,10 @@ theorem series_values (reprF : Rat → String) (c : Column) (inplace : Bool) (re
     (c.dtype = "float" → presentAllIntegral c = true →
         ∀ (i : Nat) (q : Rat), c.values[i]? = some (Cell.flt q) → res.values[i]? = some (Cell.str (toString q.floor))) ∧
     (c.dtype = "float" → presentAllIntegral c = false →
-        ∀ (i : Nat) (q : Rat), c.values[i]? = some (Cell.flt q) → res.values[i]? = some (Cell.str (reprF q))) :=
+        ∀ (i : Nat) (q : Rat), c.values[i]? = some (Cell.flt q) → res.values[i]? = some (Cell.str (reprF q))) ∧
+    (c.dtype = "float" → ∀ i : Nat,
+        (c.values[i]? = some (Cell.other posInfTag) → res.values[i]? = some (Cell.str "inf")) ∧
+        (c.values[i]? = some (Cell.other negInfTag) → res.values[i]? = some (Cell.str "-inf"))) :=
   seriesToStr_spec reprF c inplace res h
 
 /-- … and the same for `dataframe_column_to_str`, in every mode -/
@@ -32,14 +50,33 @@ theorem frame_values (reprF : Rat → String) (c : Column) (inplace returnCol : 
     res.values.length = c.values.length ∧
     (∀ i (hi : i < c.values.length) (hi' : i < res.values.length),
         res.values[i] = Cell.missing ↔ c.values[i] = Cell.missing) ∧
-    (c.dtype = "object" ∨ c.dtype = "str" → res.values = c.values) :=
-  let s := dataframeColumnToStr_spec reprF c inplace returnCol res h
-  ⟨s.1, s.2.1, s.2.2.1⟩
+    (c.dtype = "object" ∨ c.dtype = "str" → res.values = c.values) ∧
+    (c.dtype = "int" → ∀ (i : Nat) (k : Int), c.values[i]? = some (Cell.int k) → res.values[i]? = some (Cell.str (toString k))) ∧
+    (c.dtype = "float" → presentAllIntegral c = true →
+        ∀ (i : Nat) (q : Rat), c.values[i]? = some (Cell.flt q) → res.values[i]? = some (Cell.str (toString q.floor))) ∧
+    (c.dtype = "float" → presentAllIntegral c = false →
+        ∀ (i : Nat) (q : Rat), c.values[i]? = some (Cell.flt q) → res.values[i]? = some (Cell.str (reprF q))) ∧
+    (c.dtype = "float" → ∀ i : Nat,
+        (c.values[i]? = some (Cell.other posInfTag) → res.values[i]? = some (Cell.str "inf")) ∧
+        (c.values[i]? = some (Cell.other negInfTag) → res.values[i]? = some (Cell.str "-inf"))) :=
+  dataframeColumnToStr_spec reprF c inplace returnCol res h
 
 /-- "the whole column is integral" is exactly: every present float of the column is an integer -/
 theorem integral_iff (c : Column) (hflt : ∀ v ∈ c.values, v.isMissing = false → ∃ q, v = Cell.flt q) :
     presentAllIntegral c = true ↔ ∀ q, Cell.flt q ∈ c.values → isIntegral q = true :=
   presentAllIntegral_iff c hflt
+
+/-- … without any assumption on the cells: the column is integral iff every cell is missing, an integral finite float,
+    or an int -/
+theorem integral_iff_cells (c : Column) :
+    presentAllIntegral c = true ↔
+      ∀ v ∈ c.values, v = Cell.missing ∨ (∃ q, v = Cell.flt q ∧ isIntegral q = true) ∨ ∃ i, v = Cell.int i :=
+  presentAllIntegral_iff' c
+
+/-- a float column holding `inf` or `-inf` is never integral (its finite values are printed with `repr`) -/
+theorem inf_not_integral (c : Column) (h : Cell.other posInfTag ∈ c.values ∨ Cell.other negInfTag ∈ c.values) :
+    presentAllIntegral c = false :=
+  h.elim (presentAllIntegral_of_other c _) (presentAllIntegral_of_other c _)
 
 /-- mode matrix: inplace ⇒ True (the given frame is converted), return_col ⇒ a column, neither ⇒ a converted copy
     of the frame (input untouched), both ⇒ AssertionError; the only other error is TypeError for a column that is
@@ -53,7 +90,10 @@ theorem frame_modes (reprF : Rat → String) (c : Column) (inplace returnCol : B
     | .retFrame _ => inplace = false ∧ returnCol = false :=
   dataframeColumnToStr_mode reprF c inplace returnCol
 
-/-- `series_to_str`: inplace ⇒ True, otherwise a new column — outside the documented exception -/
+/-- `series_to_str`: inplace ⇒ True, otherwise a new column — outside the documented exception.
+    DOCUMENTED behaviour, see known finding K1 in the header: for a numeric (int / float) column with a present value
+    and `inplace = true` the real code under pandas ≥ 3 raises TypeError and leaves the Series unchanged, whereas the
+    model (this theorem) returns `True`; in every other case the real code behaves as stated. -/
 theorem series_modes (reprF : Rat → String) (c : Column) (inplace : Bool)
     (h : ¬ (c.dtype = "float" ∧ (c.values.length = 0 ∨ ∀ x ∈ c.values, x.isMissing = true)))
     (h' : ¬ (c.values.length = 0 ∧ c.dtype ≠ "object")) :
@@ -68,7 +108,10 @@ theorem series_all_missing (reprF : Rat → String) (c : Column) (inplace : Bool
     seriesToStr reprF c inplace = .retCol { c with dtype := "object" } :=
   seriesToStr_float_all_missing reprF c inplace hd h
 
-/-- conversion fails only with TypeError, exactly for a non-empty column of another dtype -/
+/-- conversion fails only with TypeError, exactly for a non-empty column of another dtype.
+    DOCUMENTED behaviour, see known finding K1 in the header: the real code under pandas ≥ 3 ALSO raises TypeError for
+    `inplace = true` on a numeric (int / float) column with a present value (recorded in /verif/known_findings.json,
+    K1); the "only if" direction of this theorem is about the model, i.e. the documented behaviour. -/
 theorem series_error_iff (reprF : Rat → String) (c : Column) (inplace : Bool) (e : PyErr) :
     seriesToStr reprF c inplace = .err e ↔
       e = .typeErr ∧ c.values.length ≠ 0 ∧
@@ -78,5 +121,10 @@ theorem series_error_iff (reprF : Rat → String) (c : Column) (inplace : Bool) 
 /-! non-vacuity: a float column with a missing value and an integral value -/
 example : (seriesToStr (fun _ => "?") { dtype := "float", values := [.flt 3, .missing] } false).col?
     = some { dtype := "str", values := [.str "3", .missing] } := by decide
+
+/-! an infinity makes the column non-integral: every finite value is printed with `repr`, `inf` as "inf", NaN stays
+    missing (real code: `series_to_str(pd.Series([1.0, inf, nan]))` = `['1.0', 'inf', NaN]`) -/
+example : (seriesToStr (fun _ => "1.0") { dtype := "float", values := [.flt 1, .other posInfTag, .missing, .other negInfTag] } false).col?
+    = some { dtype := "str", values := [.str "1.0", .str "inf", .missing, .str "-inf"] } := by decide
 
 end SSJ.Props.C16
